@@ -295,8 +295,17 @@ impl<T> TimerThread<T> {
                 }
             }
 
-            match self.timer_list.schedule_timer(now(), f) {
-                Some(time) => thread::park_timeout(Duration::from_nanos(time)),
+            let start = now();
+            match self.timer_list.schedule_timer(start, f) {
+                Some(time) => {
+                    // `time` is relative to `start`, but the handlers, which resume the
+                    // timed out coroutines in place, may have run for a while since then.
+                    // don't sleep that time again, the next timer may be due already
+                    let elapsed = now().saturating_sub(start);
+                    if time > elapsed {
+                        thread::park_timeout(Duration::from_nanos(time - elapsed));
+                    }
+                }
                 None => thread::park(),
             }
         }
